@@ -133,8 +133,8 @@ def run(ctx):
     work = ctx.work
     jobs = []
     for prof in ('R', 'RW', 'C'):
-        jobs.append(('exh', prof, 's' if quick else 'm3', None, None))
-        jobs.append(('sim', prof, 'l', 'num=%d' % (150 if quick else 3000), 7))
+        jobs.append(('exh', prof, 's' if (quick or prof != 'R') else 'm3', None, None))
+        jobs.append(('sim', prof, 'l', 'num=%d' % (150 if quick else 1500), 7))
 
     def go(j):
         name, prof, size, sim, depth = j
